@@ -45,11 +45,17 @@ impl Ord for Degree {
 
 impl Degree {
     pub fn add(&self, other: &Degree) -> Degree {
-        max(*self, *other)
+        use Degree::*;
+        match (self, other) {
+            // A quadratic constraint is on the form `A * B + C` where `A`, `B`, and `C` are
+            // linear. The sum of two quadratic expressions is not on this form in general.
+            (Quadratic, Quadratic) => NonQuadratic,
+            _ => max(*self, *other),
+        }
     }
 
     pub fn infix_sub(&self, other: &Degree) -> Degree {
-        max(*self, *other)
+        self.add(other)
     }
 
     pub fn mul(&self, other: &Degree) -> Degree {
